@@ -11,8 +11,9 @@
 (*   predict : every query row (batch call, single-row call, dataset call) *)
 (*             finite, non-negative, sums to one, predicted component has  *)
 (*             maximal probability (exact order keys, ties arbitrary)      *)
-(*   refit   : (single run) Ok means converged: a larger iteration budget  *)
-(*             returns the same mixture                                    *)
+(*   refit   : Ok means converged: if every run 1..r was selected by the   *)
+(*             fit with that many runs, a larger iteration budget returns  *)
+(*             the same mixture                                            *)
 (***************************************************************************)
 EXTENDS Gmm, TraceIO
 
@@ -101,22 +102,34 @@ TPredict ==
   /\ HasEv("predict") /\ st = "modelled"
   /\ Verdict(PredictBad, "done")
 
-\* a fit that returned Ok has converged within its budget: the same single-run fit (same data,
-\* parameters and seed) with a larger budget stops at the same iteration and returns the same mixture.
-\* A model handed out without convergence keeps moving when the budget grows.
+\* "Failure to converge is reported as an error": Ok means that the selected run converged within
+\* its budget.  What that implies for the same seed, data and parameters (runs are sequential and
+\* deterministic; the j-th run does not depend on n_runs; the result only changes when a later run is
+\* selected -- no assumption on how a run starts, i.e. continuing or re-initialised):
+\*   let F(j) be the fit with n_runs = j.  If F(1) .. F(r) are all Ok and every F(j) differs from
+\*   F(j-1) (bit patterns), then run j was selected by F(j), hence converged, for every j <= r; a
+\*   larger iteration budget then changes no run, and the fit with n_runs = r returns the same mixture.
+\* A model handed out from a run that used up its budget keeps moving when the budget grows.
+\* (Gmm.tla, InvBudget, model-checks this implication on abstract gain sequences.)
+DgSeq == [q \in 1..In.runs |-> IF q = In.runs THEN Case.ev[2].dg ELSE Ev.prefix[q].dg]
+AllRunsSelected ==
+  /\ \A q \in 1..(In.runs - 1) : Ev.prefix[q].ok
+  /\ \A q \in 2..In.runs : DgSeq[q] # DgSeq[q - 1]
 RefitBad ==
   LET m == Case.ev[2] IN      \* the model event of this case
-  IF ~m.num THEN {}           \* (reg_covar = 0, precision beyond the logged range: see Unencodable)
+  IF Len(Ev.prefix) # In.runs - 1 THEN {"refit: one fit per smaller n_runs expected"}
+  ELSE IF ~m.num THEN {}      \* (reg_covar = 0, precision beyond the logged range: see Unencodable)
+  ELSE IF ~AllRunsSelected THEN {}     \* some run may have used up its budget: nothing is implied
   ELSE IF ~Ev.ok THEN {"refit: error " \o Ev.err \o " with a larger budget"}
   ELSE IF ~Ev.num \/ Len(Ev.w) # TK \/ Len(Ev.means) # TK THEN {"refit: shapes"}
   ELSE (IF \A q \in 1..TK : Abs(Ev.w[q] - m.w[q]) <= 200 + m.w[q] \div GG(Ft) THEN {} ELSE {"refit: weights moved"})
        \cup (IF \A q \in 1..TK : \A j \in 1..TP : Abs(Ev.means[q][j] - m.means[q][j]) <= 20 + Abs(m.means[q][j]) \div GG(Ft)
                THEN {} ELSE {"refit: means moved"})
 TRefit ==
-  /\ HasEv("refit") /\ st = "done" /\ In.runs = 1
+  /\ HasEv("refit") /\ st = "done"
   /\ Verdict(RefitBad, "refitted")
 
-Final == IF In.runs = 1 THEN {"refitted", "failed"} ELSE {"done", "failed"}
+Final == {"refitted", "failed"}
 Accept ==
   /\ e = Len(Case.ev) + 1 /\ st \in Final
   /\ Ok(Case.id)
@@ -124,7 +137,7 @@ Accept ==
 
 \* any other event (a panic, an event out of order) or a trace that ends early is unexplained
 Expected == IF st = "start" THEN "fit" ELSE IF st = "fitted" THEN "model" ELSE IF st = "modelled" THEN "predict"
-            ELSE IF st = "done" /\ In.runs = 1 THEN "refit" ELSE "end"
+            ELSE IF st = "done" THEN "refit" ELSE "end"
 Stuck ==
   /\ e <= Len(Case.ev) + 1
   /\ IF e <= Len(Case.ev) THEN Ev.ev # Expected ELSE st \notin Final
